@@ -38,6 +38,32 @@ func past(t time.Time) bool { return !t.After(time.Now()) }
 // has: key is present in the map (spec builtin; executable version)
 func has[K comparable, V any](m map[K]V, k K) bool { _, ok := m[k]; return ok }
 
+// ghost trace of the calling goroutine (spec builtins; the executable stubs only
+// make the file compile - clauses that use them are not replayable):
+//   nsent()/nrecv(): number of channel sends / receives performed so far
+//   senton(i, ch)/recvon(i, ch): the i-th send / receive was on channel ch
+//   sentval[T](i)/recvval[T](i): the pointer value sent / received by it
+//   nsenton(ch)/nrecvon(ch): number of sends / receives on ch
+//   wirelen()/wirebyte(i): bytes handed to a function field declared `sink`
+func nsent() int                    { return 0 }
+func nrecv() int                    { return 0 }
+func senton(i int, ch any) bool     { return false }
+func recvon(i int, ch any) bool     { return false }
+func sentval[T any](i int) (t T)    { return }
+func recvval[T any](i int) (t T)    { return }
+func nsenton(ch any) int            { return 0 }
+func nrecvon(ch any) int            { return 0 }
+func wirelen() int                  { return 0 }
+func wirebyte(i int) uint8          { return 0 }
+func closed(ch any) bool            { return false }
+
+// allocated(p): p points to an object that exists (was allocated earlier)
+func allocated(p any) bool { return p != nil }
+
+// within(sub, whole): sub is a window of whole; offsetin: where it starts
+func within(sub, whole []byte) bool { return true }
+func offsetin(sub, whole []byte) int { return 0 }
+
 // elems / entries: frame designators for modifies clauses
 func elems[T any](s []T) int               { return len(s) }
 func entries[K comparable, V any](m map[K]V) int { return len(m) }
@@ -219,6 +245,14 @@ func syinv(c *syncer) bool {
 
 //@ import "time"
 
+//@ field GoBackNConn.recvDataChan nonnil
+//@ field GoBackNConn.sendDataChan nonnil
+//@ field GoBackNConn.quit closeonly
+//@ field GoBackNConn.remoteClosed closeonly
+//@ field queue.quit closeonly
+//@ field syncer.quit closeonly
+//@ field config.sendToStream sink
+
 //@ func containsSequence(base, top, seq uint8) (r bool)
 //@   props C01 C07 C09
 //@   ensures r == inwin(base, top, seq)
@@ -340,6 +374,115 @@ func boinv(b *TimeoutBooster) bool { return b != nil && past(b.lastBoost) }
 //@   props C20
 //@   requires m != nil
 //@   ensures r != 0
+
+// ---- chunking (C14) -------------------------------------------------------------
+
+// chunkSent: the i-th channel send of this goroutine handed the send loop a
+// non-ping data packet.
+func chunkSent(g *GoBackNConn, i int) bool {
+	return senton(i, g.sendDataChan) && sentval[*PacketData](i) != nil && allocated(sentval[*PacketData](i)) &&
+		!sentval[*PacketData](i).IsPing
+}
+
+// chunkSize: its payload is a window of data of 1..maxChunk bytes.
+func chunkSize(data []byte, i, maxChunk int) bool {
+	return within(sentval[*PacketData](i).Payload, data) &&
+		len(sentval[*PacketData](i).Payload) >= 1 && len(sentval[*PacketData](i).Payload) <= maxChunk
+}
+
+// chunkChain: it starts where the previous chunk ended (the first one, with
+// index first, at offset 0).
+func chunkChain(data []byte, first, i int) bool {
+	return (i != first || offsetin(sentval[*PacketData](i).Payload, data) == 0) &&
+		(i == first || offsetin(sentval[*PacketData](i).Payload, data) ==
+			offsetin(sentval[*PacketData](i-1).Payload, data)+len(sentval[*PacketData](i-1).Payload))
+}
+
+func chunkOK(g *GoBackNConn, data []byte, first, i, maxChunk int) bool {
+	return chunkSent(g, i) && chunkSize(data, i, maxChunk) && chunkChain(data, first, i)
+}
+
+// chunkEnd: offset in data up to which the chunks sent so far reach.
+func chunkEnd(data []byte, first, n int) int {
+	if n == first {
+		return 0
+	}
+	return offsetin(sentval[*PacketData](n-1).Payload, data) + len(sentval[*PacketData](n-1).Payload)
+}
+
+//@ func (g *GoBackNConn) Send(data []byte) (err error)
+//@   props C14 C12
+//@   requires g != nil && g.cfg != nil && tminv(g.timeoutManager) && g.cfg.maxChunkSize >= 0
+//@   loop 0 invariant sentBytes >= 0 && sentBytes <= len(data) && maxChunk == g.cfg.maxChunkSize && maxChunk > 0 && len(data) > 0
+//@   loop 0 invariant nsent() >= old(nsent()) && chunkEnd(data, old(nsent()), nsent()) == sentBytes
+//@   loop 0 invariant implies(nsent() > old(nsent()), isnil(timeout))
+//@   loop 0 invariant forall(old(nsent()), nsent(), func(i int) bool { return chunkSent(g, i) })
+//@   loop 0 invariant forall(old(nsent()), nsent(), func(i int) bool { return chunkSize(data, i, maxChunk) })
+//@   loop 0 invariant forall(old(nsent()), nsent(), func(i int) bool { return chunkChain(data, old(nsent()), i) })
+//@   loop 0 invariant forall(old(nsent()), nsent(), func(i int) bool {
+//@          return sentval[*PacketData](i).FinalChunk == (i == nsent()-1 && sentBytes == len(data)) })
+//@   ensures @C14 implies(err == nil, nsent() >= old(nsent())+1 && sentval[*PacketData](nsent()-1).FinalChunk &&
+//@           chunkEnd(data, old(nsent()), nsent()) == len(data))
+//@   ensures @C14 implies(err == nil && g.cfg.maxChunkSize > 0 && len(data) > 0, forall(old(nsent()), nsent(), func(i int) bool {
+//@           return chunkSent(g, i) && chunkSize(data, i, g.cfg.maxChunkSize) }))
+//@   ensures @C14 implies(err == nil && g.cfg.maxChunkSize > 0 && len(data) > 0, forall(old(nsent()), nsent(), func(i int) bool {
+//@           return chunkChain(data, old(nsent()), i) && (sentval[*PacketData](i).FinalChunk == (i == nsent()-1)) }))
+//@   ensures @C14 implies(err == nil && (g.cfg.maxChunkSize == 0 || len(data) == 0), nsent() == old(nsent())+1 &&
+//@           senton(nsent()-1, g.sendDataChan) && !sentval[*PacketData](nsent()-1).IsPing &&
+//@           within(sentval[*PacketData](nsent()-1).Payload, data) && offsetin(sentval[*PacketData](nsent()-1).Payload, data) == 0 &&
+//@           len(sentval[*PacketData](nsent()-1).Payload) == len(data))
+//@   ensures @C14 implies(err != nil, forall(old(nsent()), nsent(), func(i int) bool { return !sentval[*PacketData](i).FinalChunk }))
+//@   ensures @C14 implies(err != nil && !closed(g.quit), nsent() == old(nsent()))
+//@   ensures @C12 implies(old(closed(g.quit)), err != nil && nsent() == old(nsent()))
+
+// extends(b, a): a is a prefix of b.
+func extends(b, a []byte) bool {
+	if len(b) < len(a) {
+		return false
+	}
+	for k := range a {
+		if b[k] != a[k] {
+			return false
+		}
+	}
+	return true
+}
+
+// appended(b, a, p): b == a ++ p.
+func appended(b, a, p []byte) bool {
+	if len(b) != len(a)+len(p) {
+		return false
+	}
+	for k := range a {
+		if b[k] != a[k] {
+			return false
+		}
+	}
+	for k := range p {
+		if b[len(a)+k] != p[k] {
+			return false
+		}
+	}
+	return true
+}
+
+//@ func (g *GoBackNConn) Recv() (b []byte, err error)
+//@   props C14 C12
+//@   requires g != nil && g.cfg != nil && tminv(g.timeoutManager)
+//@   modifies g.recvBuf
+//@   loop 0 invariant nrecv() >= old(nrecv())
+//@   loop 0 invariant forall(old(nrecv()), nrecv(), func(i int) bool { return recvon(i, g.recvDataChan) && !recvval[*PacketData](i).FinalChunk })
+//@   loop 0 invariant @C14 extends(g.recvBuf, old(g.recvBuf))
+//@   loop 0 step @C14 nrecv() == old(nrecv())+1 && recvon(nrecv()-1, g.recvDataChan) &&
+//@          appended(g.recvBuf, old(g.recvBuf), recvval[*PacketData](nrecv()-1).Payload)
+//@   loop 0 exitstep @C14 nrecv() == old(nrecv())+1 && recvon(nrecv()-1, g.recvDataChan) && recvval[*PacketData](nrecv()-1).FinalChunk &&
+//@          appended(g.recvBuf, old(g.recvBuf), recvval[*PacketData](nrecv()-1).Payload)
+//@   ensures @C14 implies(err == nil, nrecv() >= old(nrecv())+1 && recvon(nrecv()-1, g.recvDataChan) &&
+//@           recvval[*PacketData](nrecv()-1).FinalChunk && len(g.recvBuf) == 0 && extends(b, old(g.recvBuf)))
+//@   ensures @C14 implies(err == nil, forall(old(nrecv()), nrecv()-1, func(i int) bool { return recvon(i, g.recvDataChan) && !recvval[*PacketData](i).FinalChunk }))
+//@   ensures @C14 implies(err != nil, isnil(b))
+//@   ensures @C14 implies(err != nil, extends(g.recvBuf, old(g.recvBuf)))
+//@   ensures @C12 implies(old(closed(g.quit)), err != nil && nrecvon(g.recvDataChan) == old(nrecvon(g.recvDataChan)))
 
 // ---- lemmas (ghost code, verified like any other function) -------------------
 
